@@ -289,6 +289,19 @@ Proof.
   - f_equal. lia.
 Qed.
 
+Theorem tts_fh_absolute_sound lo nn f a b : f <> [] -> sorted_lt f ->
+  tts_fh_absolute lo nn f = Ok (a, b) ->
+  b = f /\ (forall x, In x a <-> lo <= x < zfirst f) /\
+  (forall x y, In x a -> In y b -> x < y) /\ (forall y, In y b -> lo <= y < lo + nn).
+Proof.
+  intros Hne Hs H. unfold tts_fh_absolute in H.
+  destruct ((lo <? zfirst f) && (zlast f <? lo + nn)) eqn:E; [|discriminate].
+  apply andb_prop in E. destruct E as [E1 E2]. injection H as <- <-.
+  split; [reflexivity|]. split; [intro x; apply zrange1_in|]. split.
+  - intros x y Hx Hy. apply zrange1_in in Hx. pose proof (sorted_lt_first_min f y Hs Hy). lia.
+  - intros y Hy. pose proof (sorted_lt_first_min f y Hs Hy). pose proof (sorted_lt_last_max f y Hs Hy). lia.
+Qed.
+
 (* non-vacuity: a concrete non-trivial configuration meets every hypothesis *)
 Definition ex_cfg : cfg := {| n := 12; fh := [1; 3]; wl := 3; step := 2; iw := Some 5; sww := true |}.
 Example ex_cfg_valid : valid ex_cfg /\ feasible ex_cfg = true /\
